@@ -49,10 +49,12 @@ class CompoundGammaDirichletPrior(CallableModel):
     def _call(self, *args, **kwargs) -> Tensor:
         taxa_count = self.tree_model.taxa_count
         x = self.tree_model.branch_lengths()
-        sum_x = x.sum(-1)
+        # keep the last dimension: the parameters have shape [...,1]
+        sum_x = x.sum(-1, keepdim=True)
         return (
-            torch.sum(x[..., :taxa_count].log(), -1) * (self.alpha.tensor - 1)
-            + torch.sum(x[..., taxa_count:].log(), -1)
+            torch.sum(x[..., :taxa_count].log(), -1, keepdim=True)
+            * (self.alpha.tensor - 1)
+            + torch.sum(x[..., taxa_count:].log(), -1, keepdim=True)
             * (self.c.tensor * self.alpha.tensor - 1)
             - torch.lgamma(self.alpha.tensor) * taxa_count
             - torch.lgamma(self.c.tensor * self.alpha.tensor) * (taxa_count - 3)
@@ -72,7 +74,14 @@ class CompoundGammaDirichletPrior(CallableModel):
         )
 
     def _sample_shape(self) -> torch.Size:
-        return self.tree_model.sample_shape
+        return max(
+            self.tree_model.sample_shape,
+            self.alpha.shape[:-1],
+            self.c.shape[:-1],
+            self.shape.shape[:-1],
+            self.rate.shape[:-1],
+            key=len,
+        )
 
     @classmethod
     def from_json(
